@@ -58,6 +58,21 @@ PROPS = {
           "active heights and the block before them. Oracle: ledger dump of the continuous run == ledger dump of the run with a clean Close/NewPegnetd at every restart height. "
           "Non-trivial = PIP-10 chain with >= 1 conversion; distinct by (start, window, shape, restart set).",
           quick=(8, 10), thorough=(16, 160), timeout=(600, 3000)),
+ "C06": P("TestC06", "exploration",
+          "rapid generates a 2.0.2+ base chain (with ungraded stretches so that held conversions stay pending) and one extra entry E built against the balances at its block "
+          "(transfer that executes / transfer with insufficient funds / conversion that executes / conversion that will be rejected), then writes E 2-3 times: same block (adjacent or "
+          "separated), next block, later blocks, i.e. while an earlier copy is pending, executed or rejected. Oracle (metamorphic): balances + every record of E in the chain with all "
+          "copies equal those of one of the chains that keep a single copy, or of the chain with none. Non-trivial = E has an effect or is a recorded rejection; distinct by (start, kind, places, size).",
+          quick=(8, 10), thorough=(16, 150), timeout=(600, 3000)),
+ "C05": P("TestC05", "exploration",
+          "chain level: rapid generates a 2.0.2+ chain (RCD-e activation drawn around it) in which a properly signed entry E (transfer or conversion, RCD-1 or RCD-e) executes, "
+          "and one tampered entry E' placed before/after E in the same block or up to two blocks later: single-bit flips of content / salt / RCD / signature, signature or RCD+signature "
+          "of another key, pair duplicated/dropped/swapped, signed for another chain id, salt altered, content re-spaced or amount edited under the old signature (all without the key), "
+          "and with the key but ineligible by rule: salt 1-3 s outside +-12 h, RCD-e entry at/before its activation height. Oracle (metamorphic, model-free): balances(chain+E') == balances(chain); "
+          "positive control: a fresh valid entry by the owner must change balances. function level: 40 built-or-mutated entries per rapid case around the RCD-e activation and the salt window edge; "
+          "oracle: accepted by fat2.NewTransactionBatch => accepted by the independent FAT-103 reference validator, and properly built entries are accepted. "
+          "Non-trivial: chain cases all (control executed by construction); function cases accepted by either side. Distinct by content/placement.",
+          quick=(8, 12), thorough=(16, 250), timeout=(600, 3000)),
 }
 
 ALL = ["C%02d" % i for i in range(1, 21)]
@@ -81,6 +96,12 @@ TEXT = {
  "C09": {"technique": "property-based testing (rapid chains x restart sets); differential continuous run vs restarted run of the real daemon",
          "level_text": "Exploration: each case syncs the same chain twice through the real daemon, once continuously and once with clean restarts, and compares the complete ledger dumps.",
          "level_note": "Ungraded heights inside the PIP-10 window are a registered known finding (restart changes conversion amounts) and are excluded from the search; its probe reproduces it deterministically."},
+ "C06": {"technique": "property-based testing (rapid placement of repeated entries); metamorphic relation between the chain with k copies and the k+1 chains with one/no copy, all run through the real daemon",
+         "level_text": "Exploration: each case costs 3-6 full syncs of the real daemon; the relation accepts any single copy executing because the statement does not say which.",
+         "level_note": "Depends on the fix for C08/dup-history (without it the daemon wedges on the second copy and C06 cannot be observed; the check then skips and says so)."},
+ "C05": {"technique": "property-based testing (rapid mutation of valid signed entries); metamorphic chain differential (with/without the tampered entry) + differential against an independent FAT-103 validator",
+         "level_text": "Exploration: hundreds (quick) to thousands (thorough) of tampered entries pushed through the real block pipeline, plus tens of thousands of validator comparisons.",
+         "level_note": "Flips of the RCD-e recovery byte are a registered known finding (probe reproduces a second debit) and excluded from the search. Trusted: ed25519 / secp256k1 implementations."},
 }
 
 _BUILT = set(PROPS)
